@@ -727,13 +727,13 @@ def regen(ctx):
 def run(ctx):
     run_pure(ctx)
     cases = load_corpus()
-    cases += [c for c in (make_case("C11-e2e", i) for i in range(ctx.n(26, 400))) if c]
+    cases += [c for c in (make_case("C11-e2e", i) for i in range(ctx.n(18, 400))) if c]
     for k, d in enumerate(["eq", "prefixdep", "nested", "subsvc", "dotted"]):
         cases += [c for c in (make_case(f"C11-e2e-{d}", i, d) for i in range(ctx.n(1, 6))) if c]
     cases += [c for c in (make_case("C11-e2e-ads", i, "ads") for i in range(ctx.n(4, 40))) if c]
     cases += [c for c in (make_case("C11-e2e-underscore", i, "underscore") for i in range(ctx.n(3, 30))) if c]
     cases += [c for c in (make_case("C11-e2e-nomsg", i, "nomsg") for i in range(ctx.n(3, 30))) if c]
-    cases += [c for c in (make_case("C11-e2e-reserved", i, "reserved") for i in range(ctx.n(4, 30))) if c]
+    cases += [c for c in (make_case("C11-e2e-reserved", i, "reserved") for i in range(ctx.n(3, 30))) if c]
     checks = run_e2e(ctx, cases)
     eval_e2e(ctx, checks, "c11e2e", len(cases))
 
